@@ -144,6 +144,15 @@ CHECKS = {
             'redaction marker and plain resources stay visible.',
             'only lower-case "secret" in the name is claimed; with a failing repr only 200 + no-leak are asserted',
             'DESIGN.md §4 C18'),
+    'C10': ('exploration',
+            'differential testing: Hypothesis-generated application trees vs the harness\'s own flattening, compared on the C06 request catalogue under every prefix',
+            'Random trees (depth <=3, prefixes, shared resources, shared unique middleware types, per-level slash mode / error '
+            'handler / render factory, inherit_slashes and rebind_render per embedding) are built nested, as a user would, and '
+            'flat, from a flattening computed by the harness (merge rule, serving-application-wins resources, slash inheritance, '
+            'renderer rule, outer error handling); status, body, Location and the middleware/endpoint trace must agree for every '
+            'catalogue request under every prefix and outside.',
+            'both sides execute clastic; a factory strictly between a route\'s own application and the outermost one is not combined with factory-argument renders',
+            'DESIGN.md §4 C10'),
 }
 
 PENDING_REASON = 'check not built yet in this session (planned, see DESIGN.md §4); not claimed until it runs quietly on the unchanged tree'
